@@ -3,6 +3,7 @@ package verifsim
 import (
 	"fmt"
 	"math/rand/v2"
+	"net"
 	"time"
 )
 
@@ -20,6 +21,10 @@ type C09Params struct {
 	EarlyWrite bool     `json:"early_write"` // issue the writes before/during the handshake
 	CloseRace  bool     `json:"close_race"`  // Close races the last writes
 	Inject     int      `json:"inject"`      // number of garbage/alert-provoking datagrams injected
+	// RebindAt: after that many client datagrams of the data phase the client's source address
+	// changes (NAT rebinding); with connection IDs and return-routability checking negotiated the
+	// server then sends path-validation records while its own writers are busy
+	RebindAt []int `json:"rebind_at,omitempty"`
 }
 
 func c09Counts(tier string) (int, int) {
@@ -40,6 +45,15 @@ func c09Gen(r *rand.Rand, tier string, idx int) any {
 	p.EarlyWrite = r.IntN(3) == 0
 	p.CloseRace = r.IntN(3) == 0
 	p.Inject = []int{0, 0, 1, 3}[r.IntN(4)]
+	if c, _ := dataCfgByName(p.Cfg); c.C.CIDLen > 0 && c.S.CIDLen > 0 && r.IntN(2) == 0 {
+		for k, at := 0, 0; k < 1+r.IntN(3); k++ {
+			at += 1 + r.IntN(6)
+			p.RebindAt = append(p.RebindAt, at)
+		}
+		p.WritersS = 1 + r.IntN(3)
+		p.PerWriter = 4 + r.IntN(5)
+		p.EarlyWrite = false
+	}
 	if r.IntN(3) != 0 {
 		p.Rules = NetRules{DropPm: 50 + r.IntN(250), DupPm: r.IntN(100), HoldPm: r.IntN(100), FaultsUntilIdx: 3 + r.IntN(12),
 			HoldMaxNs: int64(time.Millisecond) * int64(10+r.IntN(2500))}
@@ -124,6 +138,10 @@ func c09Run(rc *RunCtx, params any) {
 
 							return
 						}
+						if len(p.RebindAt) > 0 {
+							// spread the writes over the round trips in which the path is validated
+							time.Sleep(time.Duration(1+(k*5+w*3)%4) * time.Millisecond)
+						}
 					}
 				})
 			}
@@ -136,9 +154,56 @@ func c09Run(rc *RunCtx, params any) {
 	}
 	pair.StartHandshakes(0)
 	established := s.Run(pair.BothDone, 10*time.Minute) && pair.BothOK()
+	if established && len(p.RebindAt) > 0 {
+		alts := []net.Addr{Addr(11, 6001), Addr(12, 6002)}
+		for _, a := range alts {
+			n.Alias(a, pair.CSock)
+		}
+		base := 0
+		for _, em := range n.Emits {
+			if em.Ep == "c" {
+				base++
+			}
+		}
+		n.ReAddr = func(em *Emission) net.Addr {
+			if em.Ep != "c" {
+				return nil
+			}
+			moved := 0
+			for _, at := range p.RebindAt {
+				if em.Idx-base >= at {
+					moved++
+				}
+			}
+			if moved == 0 {
+				return nil
+			}
+			s.Probe("datagram-from-rebound-address")
+
+			return alts[(moved-1)%2]
+		}
+	}
 	if established {
 		pair.StartReader("c")
-		pair.StartReader("s")
+		if len(p.RebindAt) > 0 {
+			// an echo service: the datagram that reveals the new address is answered by the
+			// application at the very instant the read loop starts validating the path
+			conn := pair.ConnOf("s")
+			s.Go("s-echo", func() {
+				buf := make([]byte, 16384)
+				for {
+					k, err := conn.Read(buf)
+					if err != nil {
+						return
+					}
+					if _, err = conn.Write(buf[:k]); err != nil {
+						return
+					}
+				}
+			})
+		} else {
+			pair.StartReader("s")
+		}
 		if !p.EarlyWrite {
 			startWriters()
 		}
